@@ -11,12 +11,15 @@ def parseOp (tok : String) : Op :=
   | ["bX", n] => match n.toNat? with | some n => .sBegin n | none => .bad
   | ["eX", n] => match n.toNat? with | some n => .sEnd n | none => .bad
   | ["K", n] => match n.toNat? with | some n => .kill n | none => .bad
+  | ["fX", n] => match n.toNat? with | some n => .follow n | none => .bad
+  | ["cX", n] => match n.toNat? with | some n => .cancel n | none => .bad
+  | ["jX", n] => match n.toNat? with | some n => .join n | none => .bad
   | ["L", n, k] => match n.toNat?, k.toNat? with | some n, some k => .view n k | _, _ => .bad
   | _ => .bad
 
 def showOut : Out → String
   | .ok o => s!"ok:{o}" | .pre m => s!"pre{m}" | .done => "ok" | .busy => "busy" | .none => "none"
-  | .nf => "nf" | .eloop => "eloop" | .badOp => "bad-op"
+  | .nf => "nf" | .eloop => "eloop" | .badOp => "bad-op" | .wait => "wait" | .cancelled => "cancelled"
 
 def showEv : Ev → String
   | .members n => s!"{n}m" | .getHit n => s!"{n}g" | .getMiss n => s!"{n}G" | .put n => s!"{n}p" | .del n => s!"{n}d"
@@ -29,7 +32,8 @@ def digest (s : St) : String :=
   let r := match s.reg with | some n => toString n | none => "none"
   let live := ",".intercalate (s.live.map fun b => if b then "1" else "0")
   let held := ",".intercalate (((s.held.map (·.1)).foldr insertSorted []).map toString)
-  s!"R={r} live={live} max={s.maxLive} started={s.started} held={held} log={",".intercalate (s.log.reverse.map showEv)}"
+  let fol := ",".intercalate (((s.fol.map (·.1)).foldr insertSorted []).map toString)
+  s!"R={r} live={live} max={s.maxLive} started={s.started} held={held} fol={fol} log={",".intercalate (s.log.reverse.map showEv)}"
 
 def model (line : String) : String :=
   match line.splitOn "|" with
